@@ -20,14 +20,14 @@ CLAIMED = {
         "design": "DESIGN.md section 7 C04",
     },
     "C05": {
-        "text": "Coq theorems: the CRC table regenerated from crc32.c is the reflected CRC-32 table; table-driven update = bit-serial CRC; split independence; chunked whole-file checksum = CRC of the file with bytes 6..9 zeroed for every length; acceptance implies stored = CRC; any alteration confined to <= 4 consecutive bytes (after or inside the field) and any one-bit alteration is rejected as SB_ECORRUPTED on both routes for every file length; two-bit alterations within 2^22 bit positions of each other are rejected (orbit sweep inside the kernel; bound stated). Tied to the code by the regenerated table and by differential runs (all single-bit flips, sampled double flips, all 1..4-byte windows).",
-        "note": "Trusted: Coq kernel (vm_compute for the 256-entry table and the 2^22-step orbit sweep), gen_consts.py, hand-written model of the checksum loop and of parser_init, extraction, harness. Two-bit detection beyond 2^22 bits apart is not proved. No axioms.",
-        "technique": "Coq proof (GF(2) linearity + injectivity of the register step, reflection for table and orbit) + regenerated table + differential correspondence",
+        "text": "Coq theorems: the CRC table regenerated from crc32.c is the reflected CRC-32 table; table-driven update = bit-serial CRC; split independence; chunked whole-file checksum = CRC of the file with bytes 6..9 zeroed for every length; acceptance implies stored = CRC; any alteration confined to <= 4 consecutive bytes (after or inside the field) and any one-bit alteration is rejected as SB_ECORRUPTED on both routes for every file length; two-bit alterations are rejected whenever the two bits are less than 2^32-1 positions (512 MiB) apart, because the register step has multiplicative order exactly 2^32-1 (the reflected polynomial is primitive: proved inside the kernel by 32x32 bit-matrix exponentiation, the cofactor tests for 3, 5, 17, 257, 65537 and a gcd argument; the earlier 2^22 orbit sweep is kept as an independent theorem). Tied to the code by the regenerated table and by differential runs (all single-bit flips, sampled double flips, all 1..4-byte windows).",
+        "note": "Trusted: Coq kernel (vm_compute for the 256-entry table and the 2^22-step orbit sweep), gen_consts.py, hand-written model of the checksum loop and of parser_init, extraction, harness. Two bits 2^32-1 or more positions apart (files of 512 MiB and more) are outside the theorem - and outside what any 32-bit CRC can detect. No axioms.",
+        "technique": "Coq proof (GF(2) linearity + injectivity of the register step, primitivity of the polynomial by matrix exponentiation, reflection for the table) + regenerated table + differential correspondence",
         "design": "DESIGN.md section 7 C05",
     },
     "C01": {
-        "text": "Coq theorems about an exact (rational) model of the trajectory decoder and player: decode(encode T) gives back header, durations, chained start times and control points for every well-formed abstract trajectory (all 256 header combinations, any scale 1..127); the power-basis polynomial built by the transcription of sb_poly_make_bezier evaluated by Horner equals the de Casteljau Bezier curve for 1..8 control points; position_at = traj_pos (segment containing t, elapsed fraction, clamps at 0 and at the end) for every t incl. +-inf; segments join; every duration query = sum of durations; a 16-bit block cannot wrap uint32. Tied to the code by differential runs: header fields, segment counts, the five duration queries exact; positions within the float32 bound tol_at (Coq-defined, assumed) of the exact model at/around every boundary.",
-        "note": "Trusted: Coq kernel; hand-written model (exact arithmetic where the code uses binary32: rounding bound tol_at is a named numeric assumption with safety factor 4, not a theorem; the binary32 segment selection can differ from the exact one only within rounding of a boundary, covered by the neighbour term of the tolerance); extraction; harness. No axioms (Z and Q only).",
+        "text": "Coq theorems about an exact (rational) model of the trajectory decoder and player: decode(encode T) gives back header, durations, chained start times and control points for every well-formed abstract trajectory (all 256 header combinations, any scale 1..127); the power-basis polynomial built by the transcription of sb_poly_make_bezier evaluated by Horner equals the de Casteljau Bezier curve for 1..8 control points; position_at = traj_pos (segment containing t, elapsed fraction, clamps at 0 and at the end) for every t incl. +-inf; segments join; every duration query = sum of durations; a 16-bit block cannot wrap uint32; the power-basis coefficients of a segment axis grow by at most 3^n and evaluating the axis polynomial in binary32 (Horner, every operation rounded) is within 17*2^-24*3^n*max|P| of the exact value at every point of the segment (the evaluation term of the comparison tolerance is a theorem). Tied to the code by differential runs: header fields, segment counts, the five duration queries exact; positions within the float32 bound tol_at (Coq-defined, assumed) of the exact model at/around every boundary.",
+        "note": "Trusted: Coq kernel; hand-written model (exact arithmetic where the code uses binary32: of the rounding bound tol_at the Horner evaluation term is proved (segment_axis_binary32_evaluation_error), the rounding of the coefficient conversion and of the curve parameter stays a named numeric assumption with safety factor 4; the binary32 segment selection can differ from the exact one only within rounding of a boundary, covered by the neighbour term of the tolerance); extraction; harness. No axioms (Z and Q only).",
         "technique": "Coq proof (round trip + Bezier identity by field + induction over segments) + differential correspondence with a Coq-defined float tolerance",
         "design": "DESIGN.md section 7 C01",
     },
@@ -80,8 +80,8 @@ CLAIMED = {
         "design": "DESIGN.md section 7 C16",
     },
     "C18": {
-        "text": "Coq theorems over the reals: the polynomial built from 1..8 Bezier control points and a duration evaluates to the de Casteljau curve at u/duration; derivative / scale / stretch / add-constant laws for every length; hodograph; the executable rational instance agrees with the real one; the factorial table regenerated from poly.c is the factorials. Root finding (degree <= 3, libm-based in the code): the certificates used as the oracle are proved sound over the reals (interval Horner enclosure, exclusion by bisection, every real root inside the Cauchy bound lies in a reported box, a sign change certifies a root, extrema enclosures; closed forms for degree <= 2), so each run's verdicts are per-instance theorems. Tied to the code by differential runs within float evaluation bounds and against the certificates.",
-        "note": "Trusted: Coq kernel; standard-library real-number axioms (sig_forall_dec, sig_not_dec, functional_extensionality_dep, classic); float evaluation bounds and root tolerances are assumed/calibrated, cubic root claims are per instance (certificate), not for all inputs; known finding D13 (extrema of degree > 3 unset). Extraction; harness.",
+        "text": "Coq theorems over the reals: the polynomial built from 1..8 Bezier control points and a duration evaluates to the de Casteljau curve at u/duration; derivative / scale / stretch / add-constant laws for every length; hodograph; the executable rational instance agrees with the real one; the factorial table regenerated from poly.c is the factorials; Horner evaluation in the binary32 model is within gamma_2n * sum|c_i||u|^i of the exact value for every coefficient list and argument (Higham's bound; 17*2^-24 for up to 8 coefficients), likewise a+b*u. Root finding (degree <= 3, libm-based in the code): the certificates used as the oracle are proved sound over the reals (interval Horner enclosure, exclusion by bisection, every real root inside the Cauchy bound lies in a reported box, a sign change certifies a root, extrema enclosures; closed forms for degree <= 2), so each run's verdicts are per-instance theorems. Tied to the code by differential runs within float evaluation bounds and against the certificates.",
+        "note": "Trusted: Coq kernel; standard-library real-number axioms (sig_forall_dec, sig_not_dec, functional_extensionality_dep, classic); the Horner evaluation bound is proved (no axioms), the bounds for coefficient conversion and the root tolerances are assumed/calibrated, cubic root claims are per instance (certificate), not for all inputs; known finding D13 (extrema of degree > 3 unset). Extraction; harness.",
         "technique": "Coq proof over R (field identities, Coquelicot derivatives, verified interval/bisection certificates) + differential correspondence",
         "design": "DESIGN.md section 7 C18",
     },
@@ -105,7 +105,7 @@ CLAIMED = {
     },
     "C13": {
         "text": "Coq theorems: the interval-Horner range enclosure and the leftmost-root search used as the oracle are sound over the reals (NoRoot: the altitude polynomial differs from the target everywhere in the interval; Maybe a b: no crossing before a); a sign change certifies a real root; the scan over segments reports the first segment that can contain a crossing, with no crossing in any earlier segment and none before the box in that segment; infinity exactly for invalid parameters (negative/non-finite ascent, non-positive/non-finite speed, non-positive acceleration), characterised by stats_valid_spec; travel time modelled bit-exactly (C20). Tied to the code by differential runs: the C answer E must lie in the certified box (widened by the stated cubic tolerance), infinity cases exact, statistics interface = proposal.",
-        "note": "PARTIAL: the closed-form cubic solver goes through libm cbrtf/cpowf and has no exact model; for cubic altitude segments 'the code returns the first crossing' is checked per instance against the certified box, not proved for all inputs. Known finding D16 (crossing within ~1e-3 of a cubic segment end is missed). Axioms: standard-library reals (sig_forall_dec, sig_not_dec, functional_extensionality_dep, classic). Trusted: Coq kernel; models; tolerances (1% of a cubic segment, 1e-5 relative otherwise); extraction; harness.",
+        "note": "PARTIAL: the closed-form cubic solver goes through libm cbrtf/cpowf and has no exact model; for cubic altitude segments 'the code returns the first crossing' is checked per instance against the certified box, not proved for all inputs. Known findings D16 (crossing within ~1e-3 of a cubic segment end is missed) and D20 (a segment that reaches the altitude inside and again exactly at its end is reported at its end; pinned by the repository's own unit test, hence recorded, not repaired). Axioms: standard-library reals (sig_forall_dec, sig_not_dec, functional_extensionality_dep, classic). Trusted: Coq kernel; models; tolerances (1% of a cubic segment, 1e-5 relative otherwise); extraction; harness.",
         "technique": "Coq proof (soundness of interval/bisection certificates over R, induction over segments) + per-instance certified differential correspondence",
         "design": "DESIGN.md section 7 C13",
     },
